@@ -24,6 +24,8 @@ func init() {
 			c.ruleBanGuard()
 			c.min("R-BANGUARD", 3)
 			c.ruleSatArith()
+			c.ruleLostUpdate("R-LOSTUPDATE", psDir)
+			c.min("R-LOSTUPDATE", 2)
 			c.ruleLoopExit()
 			c.min("R-LOOPEXIT", 1)
 			c.ruleLocks(lockSpec{dir: psDir, typ: "PeersState", guarded: []string{"nodes", "sets"}, rule: "R-LOCKS", noL4: true,
